@@ -238,6 +238,15 @@ impl Table {
         }
         out
     }
+    /// the same rows `k` times over (longer arrays: bitmap word boundaries, pre-selection ratios)
+    pub fn repeat(&self, k: usize, max_rows: usize) -> Table {
+        let k = k.max(1).min((max_rows / self.rows.max(1)).max(1));
+        if k == 1 {
+            return Table { used: self.used.clone(), cols: self.cols.clone(), rows: self.rows, exhaustive: self.exhaustive };
+        }
+        let cols = self.cols.iter().map(|c| (0..k).flat_map(|_| c.iter().cloned()).collect()).collect();
+        Table { used: self.used.clone(), cols, rows: self.rows * k, exhaustive: self.exhaustive }
+    }
     pub fn filter_rows(&self, keep: &[bool]) -> Table {
         let cols = self.cols.iter().map(|c| c.iter().zip(keep).filter(|(_, k)| **k).map(|(v, _)| v.clone()).collect()).collect();
         Table { used: self.used.clone(), cols, rows: keep.iter().filter(|k| **k).count(), exhaustive: false }
